@@ -10,7 +10,7 @@ ENTS = {"deep": '{"r", "s", "m", "l"}'}          # the other shapes have the thr
 
 # which clause of RepoTrace.tla belongs to which property
 CLAUSES = {
-    "C01": {"signature", "issuerDnBytes", "aki", "ski"},
+    "C01": {"signature", "issuerDnBytes", "aki", "ski", "chainAfterDefault"},
     "C10": {"changedFiles", "otherFiles", "rerun"},
     "C11": {"planSet", "issuersFirst", "changeType", "writeOrder"},
     "C12": {"converged", "transition", "type", "refused", "defaultRunFails", "writeOrder"},
